@@ -1,7 +1,6 @@
 package c20
 
 import (
-	"errors"
 	"math"
 	"strings"
 )
@@ -82,25 +81,7 @@ func weightValue(fam string, n int, rs uint64, i, j int) int64 {
 
 // ---- recording / fault-injecting writer ---------------------------------
 
-const (
-	modeNone      = ""
-	modePermanent = "permanent"       // error from write p on
-	modeTransient = "transient"       // error at write p only
-	modeShortErr  = "short-error"     // half of the bytes accepted, n < len, error, at write p only
-	modeShortNil  = "short-nil-error" // half of the bytes accepted, n < len, NIL error (contract violation by the writer): recorded, not judged
-)
-
-var faultModes = []string{modePermanent, modeTransient, modeShortErr, modeShortNil}
-
-func judgedMode(m string) bool {
-	return m == modePermanent || m == modeTransient || m == modeShortErr || m == "strace-transient" || m == "strace-permanent"
-}
-
-var (
-	errPermanent = errors.New("injected permanent write failure")
-	errTransient = errors.New("injected transient write failure")
-	errShort     = errors.New("injected short write")
-)
+// The fault modes (faultSpec, mode lists, error values) are in faultspec.go.
 
 // recWriter is an io.Writer that keeps every accepted byte, the size of every
 // Write call, and injects one fault.
@@ -121,6 +102,11 @@ type recWriter struct {
 	failedCalls      int  // calls that returned a non-nil error
 	viaString        int  // calls that arrived through WriteString
 	viaReadFrom      int  // calls that arrived through ReadFrom
+	// what the faulted call returned
+	firedRet int
+	firedErr string
+	spec     *faultSpec
+	specMode string
 }
 
 func (w *recWriter) Write(p []byte) (int, error) {
@@ -130,38 +116,34 @@ func (w *recWriter) Write(p []byte) (int, error) {
 		w.writesAfter++
 	}
 	if w.mode != modeNone && idx >= w.pos {
-		if idx == w.pos {
-			w.fired = true
-			w.firedLen = len(p)
-			w.firedOff = len(w.data)
-			w.firedAfterReturn = w.afterReturn
-			switch w.mode {
-			case modePermanent:
-				w.failedCalls++
-				return 0, errPermanent
-			case modeTransient:
-				w.failedCalls++
-				return 0, errTransient
-			case modeShortErr:
-				k := len(p) / 2
-				w.shortN = k
-				w.data = append(w.data, p[:k]...)
-				w.failedCalls++
-				return k, errShort
-			case modeShortNil:
-				if len(p) == 0 {
-					// a zero-length write cannot be short
-					w.fired = false
-					return 0, nil
-				}
-				k := len(p) / 2
-				w.shortN = k
-				w.data = append(w.data, p[:k]...)
-				return k, nil
+		if w.spec == nil || w.specMode != w.mode {
+			sp, ok := specOf(w.mode)
+			if !ok {
+				panic("c20: unknown fault mode " + w.mode)
 			}
-		} else if w.mode == modePermanent {
-			w.failedCalls++
-			return 0, errPermanent
+			w.spec, w.specMode = &sp, w.mode
+		}
+		if w.spec.active(w.pos, idx) {
+			ret, take, err, deviates := w.spec.result(len(p))
+			if idx == w.pos {
+				if !deviates {
+					// nil error and count == len(p) (a zero-length write cannot be short): not a fault
+					w.data = append(w.data, p...)
+					return len(p), nil
+				}
+				w.fired = true
+				w.firedLen = len(p)
+				w.firedOff = len(w.data)
+				w.firedAfterReturn = w.afterReturn
+				w.shortN = take
+				w.firedRet = ret
+				w.firedErr = errText(err)
+			}
+			w.data = append(w.data, p[:take]...)
+			if err != nil {
+				w.failedCalls++
+			}
+			return ret, err
 		}
 	}
 	w.data = append(w.data, p...)
